@@ -219,6 +219,9 @@ impl Monitor for C07 {
         if s.idx % 400 == 123 {
             self.many_farms_probe(w, s, rep);
         }
+        if s.idx % 400 == 323 {
+            self.long_history_probe(w, s, rep);
+        }
     }
 }
 
@@ -292,6 +295,90 @@ impl C07 {
         }
         rep.count("share_exact", &format!("many_farms_probe: farms on the LP token {}", if live > 10 { "> 10" } else { "<= 10" }));
         let _ = made;
+        self.ledger = saved;
+        w.restore(&snap);
+    }
+
+    /// forked: (1) a staker changes its weight in each of twelve consecutive epochs without
+    /// claiming and then claims once; (2) a user with ten open positions in one LP token gets an
+    /// eleventh - in another LP token - through a locked deposit via the pool manager (refused
+    /// on a correct tree), a farm runs on that LP token, the user claims. Every message is fed
+    /// to the ledger and judged by the ordinary clauses.
+    fn long_history_probe(&mut self, w: &mut World, s: &Step, rep: &mut Reporter) {
+        use crate::wfarm::{farm_funds, farm_op};
+        use mantra_dex_std::farm_manager::{FarmAction, FarmParams};
+        let cur = match s.fpost.epoch {
+            Some(e) => e,
+            None => return,
+        };
+        let snap = w.snapshot();
+        let saved = self.ledger.clone();
+        let day = w.cfg.epoch_duration;
+        let fee = s.fpost.cfg.create_farm_fee.clone();
+        let owner = w.owner.clone();
+        // room for the probe's farms
+        let limit = s.fpost.cfg.max_concurrent_farms.max(8);
+        self.forked(w, &crate::wfarm::fm_config_op(&owner, |p| p.max_concurrent_farms = Some(limit)), s.idx, rep);
+        let mk_farm = |lp: &str, start: u64, epochs: u64, who: &Addr, tag: String| {
+            let reward = coin(10_000 * epochs as u128, "uusdc");
+            farm_op(who, FarmAction::Create { params: FarmParams { lp_denom: lp.to_string(), start_epoch: Some(start), preliminary_end_epoch: Some(start + epochs), curve: None, farm_asset: reward.clone(), farm_identifier: Some(tag) } }, farm_funds(&reward, &fee))
+        };
+        // ---- part 1: twelve weight changes in twelve epochs, one claim
+        let open: Vec<&mantra_dex_std::farm_manager::Position> = s.fpost.positions.values().filter(|p| p.open).collect();
+        if let Some(p) = open.choose(&mut self.rng) {
+            let (u, lp, id) = (p.receiver.clone(), p.lp_asset.denom.clone(), p.identifier.clone());
+            let creator = w.users.iter().find(|x| **x != u).cloned().unwrap_or(owner.clone());
+            self.forked(w, &claim_op(&u, None), s.idx, rep);
+            self.forked(w, &mk_farm(&lp, cur + 1, 16, &creator, format!("lh{}a", s.idx)), s.idx, rep);
+            let mut changes = 0;
+            for k in 0..12u128 {
+                self.forked(w, &Op::Advance { secs: day }, s.idx, rep);
+                let bal = w.balance(&u, &lp);
+                if bal > 0 {
+                    let amt = (p.lp_asset.amount.u128() / 50 + 1 + k).min(bal);
+                    if self.forked(w, &pos_op(&u, PositionAction::Expand { identifier: id.clone() }, vec![coin(amt, lp.clone())]), s.idx, rep) {
+                        changes += 1;
+                    }
+                }
+            }
+            self.forked(w, &Op::Advance { secs: day }, s.idx, rep);
+            self.forked(w, &claim_op(&u, None), s.idx, rep);
+            rep.count("share_exact", &format!("long_history_probe: one claim after {} weight changes in consecutive epochs", if changes >= 11 { "11+" } else { "fewer than 11" }));
+        }
+        w.restore(&snap);
+        self.ledger = saved.clone();
+        // ---- part 2: the eleventh open position, in another LP token, arrives through the pool manager
+        let lps: Vec<String> = s.post.pools.values().map(|p| p.info.lp_denom.clone()).collect();
+        let cands: Vec<Addr> = w.users.clone();
+        'outer: for v in cands {
+            let held: std::collections::BTreeSet<String> = s.fpost.positions.values().filter(|p| p.open && p.receiver == v).map(|p| p.lp_asset.denom.clone()).collect();
+            let other = match s.post.pools.values().find(|p| !held.contains(&p.info.lp_denom) && p.info.assets.len() == 2 && p.funded()) {
+                Some(p) => p.clone(),
+                None => continue,
+            };
+            let home = match lps.iter().find(|l| **l != other.info.lp_denom && w.balance(&v, l) >= 100) {
+                Some(l) => l.clone(),
+                None => continue,
+            };
+            self.forked(w, &crate::wfarm::fm_config_op(&owner, |p| p.max_concurrent_farms = Some(limit)), s.idx, rep);
+            let n_open = s.fpost.positions.values().filter(|p| p.open && p.receiver == v).count();
+            for k in n_open..10 {
+                if !self.forked(w, &pos_op(&v, PositionAction::Create { identifier: Some(format!("lim{}x{k}", s.idx)), unlocking_duration: 86_400, receiver: None }, vec![coin(5, home.clone())]), s.idx, rep) {
+                    break 'outer;
+                }
+            }
+            // the locked deposit that would make it eleven (its identifier sorts after all others)
+            let funds: Vec<cosmwasm_std::Coin> = other.info.assets.iter().map(|c| coin((c.amount.u128() / 1_000_000).max(1), c.denom.clone())).collect();
+            let accepted = self.forked(w, &crate::wpool::provide_op(&v, &other.info.pool_identifier, funds, None, None, None, Some(86_400), Some(format!("zzz{}", s.idx))), s.idx, rep);
+            rep.count("share_exact", if accepted { "long_history_probe: eleventh open position accepted" } else { "long_history_probe: eleventh open position refused" });
+            let creator = w.users.iter().find(|x| **x != v).cloned().unwrap_or(owner.clone());
+            self.forked(w, &mk_farm(&other.info.lp_denom, cur + 1, 4, &creator, format!("lh{}b", s.idx)), s.idx, rep);
+            for _ in 0..3 {
+                self.forked(w, &Op::Advance { secs: day }, s.idx, rep);
+            }
+            self.forked(w, &claim_op(&v, None), s.idx, rep);
+            break;
+        }
         self.ledger = saved;
         w.restore(&snap);
     }
